@@ -347,7 +347,7 @@ class Sssp(DistApp):
 
     def variants(self):
         v = [Variant(a, ["-algo=" + a]) for a in
-             ("Auto", "deltaStep", "deltaTile", "deltaStepBarrier", "serDelta",
+             ("AutoAlgo", "deltaStep", "deltaTile", "deltaStepBarrier", "serDelta",
               "serDeltaTile", "dijkstra", "dijkstraTile", "topo", "topoTile")]
         # -delta is the log2 bucket width; default 13 puts every distance of
         # these inputs in one bucket, 1 makes buckets matter
@@ -799,14 +799,21 @@ class Matching(App):
     oracle = "'Matching of cardinality' == Hopcroft-Karp (networkx)"
 
     def variants(self):
-        return [Variant("%s/%s" % (a, e), ["-" + a, "-" + e])
-                for e in ("parallel", "serial")
-                for a in ("abmpAlgo", "pfpAlgo", "ffAlgo")]
+        v = [Variant("%s/%s" % (a, e), ["-" + a, "-" + e])
+             for e in ("parallel", "serial")
+             for a in ("abmpAlgo", "pfpAlgo", "ffAlgo")]
+        # the app's own verifier is wrong for pfpAlgo (it aborts on correct
+        # matchings, key matching:pfpAlgo/*:self-verification-failed); with
+        # -noverify the answer itself is still compared with Hopcroft-Karp
+        v += [Variant("pfpAlgo/%s/noverify" % e, ["-pfpAlgo", "-" + e,
+                                                  "-noverify"])
+              for e in ("parallel", "serial")]
+        return v
 
     def inputs(self, tier):
         if tier == "quick":
             gs = bip_enum([(1, 1), (1, 2), (2, 1), (2, 2)])
-            gs += bip_enum([(3, 3)], 41)
+            gs += bip_enum([(3, 3)], 79)
             gs += [g for g in bip_struct()
                    if g.name in ("bladder16", "bcrowd12", "bheavy32")]
         else:
@@ -1100,6 +1107,9 @@ class Runner(object):
                                            sorted(job.inp.p.items())), job.t,
                         c.app.outcome(ans)))
             if sym:
+                if not any(f[1] == sym for f in c.fail):
+                    print("! %s:%s:%s first seen: %s" %
+                          (c.app.name, c.var.name, sym, msg[:300]), flush=True)
                 c.fail.append((job, sym, msg, out))
                 if sym == "hang":
                     c.hangs += 1
@@ -1240,33 +1250,51 @@ def confirm_failures(runner, cases, repeats=5):
             counts[sym] = counts.get(sym, 0) + 1
         for key, (job, sym, msg, out) in sorted(bykey.items()):
             again = 0
-            reps = 1 if sym == "hang" else repeats
-            for _ in range(reps):
-                s2, _m2, _a2, _o2, _dt = runner.execute(
-                    c.app, c.var, job.inp, job.t, job.j, job.path, mask)
-                if s2 == sym:
-                    again += 1
+            one = ""
+            s1 = None
             if job.t > 1:
                 # same input on one thread: a failure there is no schedule
                 # effect at all
                 s1 = runner.execute(c.app, c.var, job.inp, 1, job.j,
                                     job.path, mask)[0]
                 one = "; with -t=1: %s" % (s1 or "correct")
+            if sym == "hang":
+                # a one-thread hang is conclusive and cheap; otherwise give
+                # the original thread count one run with 3x the time
+                reps = 1
+                if s1 == "hang":
+                    again = 1
+                else:
+                    keep = runner.timeout
+                    runner.timeout = 3 * keep
+                    try:
+                        s2 = runner.execute(c.app, c.var, job.inp, job.t,
+                                            job.j, job.path, mask)[0]
+                    finally:
+                        runner.timeout = keep
+                    again = 1 if s2 == "hang" else 0
             else:
-                one = ""
+                reps = repeats
+                for _ in range(reps):
+                    s2 = runner.execute(c.app, c.var, job.inp, job.t, job.j,
+                                        job.path, mask)[0]
+                    if s2 == sym:
+                        again += 1
             if again == reps:
                 rep = "repeated %d/%d: deterministic for this input%s" % (
                     again, reps, one)
             else:
                 rep = ("repeated %d/%d: SCHEDULE DEPENDENT (uncontrolled "
                        "schedules)%s" % (again, reps, one))
-            # a single time-out that does not repeat may be machine load
-            confirmed = not (sym == "hang" and again == 0 and
-                             counts[sym] < 2)
+            # a time-out that does not repeat with 3x the time is machine
+            # load, not a verdict
+            confirmed = not (sym == "hang" and again == 0)
             full = "%s [%d failing runs in this case; %s]" % (
                 msg, counts[sym], rep)
-            path = write_replay(key, c.app, c.var, job.inp, job.t, job.j,
-                                full, out, dict(repeat=[again, reps]))
+            path = ""
+            if confirmed:
+                path = write_replay(key, c.app, c.var, job.inp, job.t, job.j,
+                                    full, out, dict(repeat=[again, reps]))
             viol.setdefault(c.name, []).append(dict(
                 key=key, msg=full, confirmed=confirmed, replay=path))
             print("%s key=%s\n    %s\n    replay=%s" % (
